@@ -68,3 +68,50 @@ TEXT["C04"] = dict(
          "content independence holds of the model by construction (contents are not an input) and is checked on the code by the oracle",
     technique="Coq proof (reduction to the verified unification model through an injective encoding) + differential correspondence",
 )
+
+TEXT["C08"] = dict(
+    text="Theorems (Coq kernel, no axioms) over the model of micro's reifyS/ReifyIntVarFromState/MKReify/Run: the reified answer is the fully resolved query "
+         "(no bound variable remains) with the k-th distinct unbound variable, left to right, replaced by _k (same variable same name); no variable leaks; "
+         "alpha-equivalent answers reify identically; reification terminates on consistent states; Run = map of reify over take. gomini part: rewrite = walkstar "
+         "on encoded values (C08g_resolved) and direct oracles on gomini.Run answers (dynamic Go type of the query, resolvedness against the reference unifier, "
+         "caller terms unmodified). Tie: differential execution of reifyS/Reify/Run.",
+    note="trusted: Coq kernel + vm_compute; harness encoders and reference unifier; hand model tied by sampling; gomini Run is checked by oracles rather than a separate model",
+    technique="Coq proof (first-occurrence renaming characterisation of reifys) + differential correspondence + oracles",
+)
+TEXT["C13"] = dict(
+    text="The relation bodies of mini.AppendO/NullO/ConsO/CarO/MemberO/MapO and gomini concato.ConcatO/PrependO are re-translated from the Go source on every run "
+         "into goal ASTs, and the theorems are re-checked against them (Coq kernel, no axioms): AppendO/ConcatO denote list concatenation (and a list of length n "
+         "has exactly n+1 splits), MemberO membership, MapO element-wise f for an arbitrary relation f, the two engines' relations agree, the unrolled variants "
+         "denote the same relations; via C02/C03 every answer's instances satisfy the relation and every satisfying tuple is an instance of an answer at a finite "
+         "position, whichever arguments are unknown. Tie: translation + cell traces of the REAL relations in every argument mode against the translated bodies + "
+         "list-function oracles.",
+    note="trusted: Coq kernel; the translator genrels (cross-checked by running the real relations against its output); harness oracles; "
+         "gomini ConcatO's concurrent execution is covered by C06",
+    technique="translation of the Go relation DSL to Coq + Coq proof (least-fixed-point induction on Den) + differential correspondence",
+)
+TEXT["C19"] = dict(
+    text="example/peano's Succ/Natplus/Leq/Half are re-translated from peano.go on every run and the theorems re-checked (Coq kernel, no axioms): Natplus(x,y,z) iff "
+         "x+y=z, Leq iff x<=y, Half iff y = x/2, general (non-ground) denotations, Makenat/Parsenat mutually inverse on Peano-shaped terms; via C02/C03 every "
+         "instantiation of an answer by naturals is a satisfying tuple and every satisfying tuple is an instance of an answer at a finite position. Tie: translation + "
+         "cell traces of the real relations in all modes on naturals <= 6 + arithmetic oracles on instantiated answers.",
+    note="trusted: Coq kernel; the translator genrels; harness oracles",
+    technique="translation of the Go relation DSL to Coq + Coq proof + differential correspondence",
+)
+TEXT["C05"] = dict(
+    text="Invariant theorem (Coq kernel, no axioms) over an address/allocation/GC transition system with an arbitrary collector and allocator: if the state retains "
+         "its placeholders then in every reachable world every listed variable is live and no later allocation is classified as a variable, for every interleaving of "
+         "NewVar/drop/GC/alloc; the numbers-only representation is refuted by a 4-step schedule. The model's single abstraction (placeholder reachable from a listing "
+         "state) is probed on the real code: finalizers on placeholders, CastVar of fresh constants after forced GC, ConcatO answer multisets under GC-percent sweeps "
+         "with GC forced at every goal boundary.",
+    note="partial: what the real Go collector/allocator do is runtime behaviour that the model cannot exhibit; trusted: Go GC frees only unreachable objects and does not move them",
+    technique="Coq invariant proof over an LTS (all schedules) + runtime probes (finalizers, forced GC)",
+)
+TEXT["C18"] = dict(
+    text="Case-by-case model of reflecttools.Map/Any/ZipReduce over a value universe (nil interface, nil/non-nil pointers, struct pointers, slices, maps, scalars) with call "
+         "logs; theorems (Coq kernel, no axioms): identity Map returns the value itself, f applied exactly once per field/element/map value in index order (maps up to "
+         "permutation), shape preserved, Any iff some child satisfies the predicate with short-circuit log, ZipReduce = left fold with early exit at the first zero, zero on "
+         "shape mismatch or exactly one nil, init on both nil. Tie: differential execution with call-logging functions over a family of Go types, plus freshness / "
+         "argument-unmodified / deep-equality oracles.",
+    note="trusted: Coq kernel + vm_compute; package reflect is modelled not verified; types are not modelled",
+    technique="Coq proof (case analysis / list induction over the reflect model) + differential correspondence",
+)
